@@ -244,15 +244,12 @@ class BaseDiscretizer(BaseEstimator, TransformerMixin):
         DataFrame
             A formatted X
         """
-        # for binary/continuous targets
-        if all(len(feature_casting) == 1 for feature_casting in self.features_casting.values()):
-            X.rename(
-                columns={
-                    feature: feature_casting[0]
-                    for feature, feature_casting in self.features_casting.items()
-                },
-                inplace=True,
-            )
+        # for binary/continuous targets: features are casted to themselves, nothing to do
+        if all(
+            feature_casting == [feature]
+            for feature, feature_casting in self.features_casting.items()
+        ):
+            pass
 
         # for multiclass targets
         else:
